@@ -395,15 +395,18 @@ def check_histories(chk: Check, histories, defaults):
         impl_outs.append(impl_run(chk, ops, i))
         exprs.append(f"snd (run ({coq_tree(defaults)}) true None [{'; '.join(coq_op(o) for o in ops)}])")
     model_outs = chk.coq_eval(HEADER, exprs)
-    for ops, io, mo in zip(histories, impl_outs, model_outs):
+    for hidx, (ops, io, mo) in enumerate(zip(histories, impl_outs, model_outs)):
         nt = nontrivial(ops)
         chk.case({'ops': ops}, nt)
         for o in ops:
             chk.count('op:' + o['op'] + (':' + o['fk'] if o['op'] == 'load' else ''))
         want = oracle_run(defaults, ops)
         if io != want:
-            ops = shrink(chk, ops, defaults)
-            io, want = impl_run(chk, ops, 999999), oracle_run(defaults, ops)
+            ops_s = shrink(chk, ops, defaults)
+            io_s, want_s = impl_run(chk, ops_s, 999999), oracle_run(defaults, ops_s)
+            carried = io_s == want_s      # not reproducible in isolation: state carried over from earlier histories
+            if not carried:
+                ops, io, want = ops_s, io_s, want_s
             j = next(i for i, (a, b) in enumerate(zip(io, want)) if a != b)
             sig = None
             # narrow signature of F16: a path failure on an unconfigured system leaves the singleton set
@@ -411,8 +414,11 @@ def check_histories(chk: Check, histories, defaults):
                          and want[x] == 'ErrPath' and io[x] == 'ErrPath']
             if prev_fail:
                 sig = 'config-path-failure-leaves-singleton-set'
-            chk.fail(f'step {j} ({ops[j]["op"]}): implementation {io[j]!r}, reference machine {want[j]!r}',
-                     {'ops': ops, 'impl': io, 'reference': want, 'first_diff': j}, signature=sig)
+            chk.fail(f'step {j} ({ops[j]["op"]}): implementation {io[j]!r}, reference machine {want[j]!r}'
+                     + (' [only after the preceding histories of this run: state survives Config.reset()]' if carried else ''),
+                     {'ops': ops, 'impl': io, 'reference': want, 'first_diff': j,
+                      'needs_preceding_histories': carried,
+                      'preceding': histories[max(0, hidx - 3):hidx] if carried else []}, signature=sig)
             continue
         if mo is None:
             continue
